@@ -67,14 +67,15 @@ def build_harness(run):
     exes = {}
     # host flavour: exactly osmocon's flags (-I firmware/include/comm -DHOST_BUILD)
     inc_h = [cfgi, cbuild.LIBOSMO_INC, os.path.join(cbuild.FW_INC, "comm")]
-    sc = cbuild.obj(run, os.path.join(fw, "comm/sercomm.c"), "c06_sercomm_h", flags=SAN + ["-DHOST_BUILD"], includes=inc_h, compiler="clang")
+    from gen import sercomm as _sg
+    sc = [cbuild.obj(run, q, "c06_sercomm_h%d" % i, flags=SAN + ["-DHOST_BUILD"], includes=inc_h, compiler="clang") for i, q in enumerate(_sg.sercomm_sources())]
     h = cbuild.obj(run, hsrc, "c06_harness_h", flags=SAN + ["-DHOST_BUILD"], includes=inc_h, compiler="clang")
-    exes["host"] = cbuild.link(run, [h, sc, msgb, talloc], "c06_harness_h.bin", flags=SAN, compiler="clang")
+    exes["host"] = cbuild.link(run, [h] + sc + [msgb, talloc], "c06_harness_h.bin", flags=SAN, compiler="clang")
     # target flavour: no HOST_BUILD; ARM interrupt primitives from the shim, firmware headers after everything else
     inc_t = [cbuild.SHIM, cfgi, cbuild.LIBOSMO_INC]
-    sc = cbuild.obj(run, os.path.join(fw, "comm/sercomm.c"), "c06_sercomm_t", flags=SAN, includes=inc_t, idirafter=[cbuild.FW_INC], compiler="clang")
+    sc = [cbuild.obj(run, q, "c06_sercomm_t%d" % i, flags=SAN, includes=inc_t, idirafter=[cbuild.FW_INC], compiler="clang") for i, q in enumerate(_sg.sercomm_sources())]
     h = cbuild.obj(run, hsrc, "c06_harness_t", flags=SAN, includes=inc_t, idirafter=[cbuild.FW_INC], compiler="clang")
-    exes["target"] = cbuild.link(run, [h, sc, msgb, talloc], "c06_harness_t.bin", flags=SAN, compiler="clang")
+    exes["target"] = cbuild.link(run, [h] + sc + [msgb, talloc], "c06_harness_t.bin", flags=SAN, compiler="clang")
     run.c06_exe = exes
     return exes
 
